@@ -182,7 +182,13 @@ def rvStep (n : Nat) (w : RVW) (o : List String) : RVW × String :=
       | "emp", [x] => match int? x with | some x => doOp (.push x) | none => skip
       | "pop", [] => doOp .pop
       | "clear", [] => doOp .clear
-      | "resize", [k] => match nat? k with | some k => doOp (.resize k) | none => skip
+      | "resize", [k] => match nat? k with
+        | some k =>
+          -- protocol op = resize(k) followed by `v[i] = 0` for every uncovered slot (see harness)
+          if (RV.Op.resize k : RV.Op Int).ok n me then
+            fin ((List.range (k - me.size)).foldl (fun s i => RV.set s (me.size + i) 0) (RV.step n me (.resize k)))
+          else skip
+        | none => skip
       | "set", [i, x] => match nat? i, int? x with | some i, some x => doOp (.set i x) | _, _ => skip
       | "at", [i] => match nat? i with
         | some i => (w, rvObs w (match RV.at? me i with | some v => toString v | none => "ERR:Range"))
@@ -194,7 +200,7 @@ def rvStep (n : Nat) (w : RVW) (o : List String) : RVW × String :=
         (w', rvObs w' "-")
       | "ctor", [] => fin (RV.empty n 0)
       | "ctorc", [k] => match nat? k with
-        | some k => if k ≤ n then fin (RV.ofCount n 0 k) else skip
+        | some k => if k ≤ n then fin ((List.range k).foldl (fun s i => RV.set s i 0) (RV.ofCount n 0 k)) else skip
         | none => skip
       | "ctorv", [k, x] => match nat? k, int? x with
         | some k, some x => if k ≤ n then fin (RV.ofCountValue n 0 k x) else skip
